@@ -124,13 +124,16 @@ class InputFileRoundTrip(Contract):
     symbolic = False
     has_native = True
     props = ("C14",)
-    bounded_scope = "template forms (bool, integer, float incl. +-inf, string, choice, multi-choice, file, object, data, data-or-value, optional/disabled variants, range) x value corpus x {default options, update_enabled=False}; written, read back, values and enabled states compared; promote/demote of uids on a real workspace; file names with dots in the stem; values assigned to members of optional groups (switch optional or not, before or after its members)"
+    bounded_scope = "template forms (bool, integer, float incl. +-inf, string, choice, multi-choice, file, object, data, data-or-value, optional/disabled variants, range) x value corpus x {default options, update_enabled=False}; written, read back, values and enabled states compared; promote/demote of uids on a real workspace; file names with dots in the stem; values assigned to members of optional groups (switch optional or not, before or after its members); values changed through set_data_value or by assigning the data dictionary back (with and without validation; data-or-value forms switched between number and channel)"
 
     def native_cases(self, tier, rng):
         for opts in ({}, {"update_enabled": False}):
             for touch_data in (False, True):
                 for name in ("t.ui.json", "inversion_v1.2.ui.json"):
                     yield {"options": opts, "touch_data": touch_data, "name": name}
+        for how in ("set_data_value", "data-assigned-back"):
+            for validate in (True, False):
+                yield {"kind": "edits", "how": how, "validate": validate, "name": "edits.ui.json"}
         # values assigned to the members of optional groups (switch itself optional or not, listed before or after its members)
         for switch_optional in (True, False):
             for switch_first in (True, False):
@@ -138,6 +141,68 @@ class InputFileRoundTrip(Contract):
                 # disabled parameters and read back as None by the format's own rule
                 for assign_switch in (True,):
                     yield {"kind": "groups", "switch_optional": switch_optional, "switch_first": switch_first, "assign_switch": assign_switch, "name": "groups v2.1.ui.json"}
+
+    def _edits(self, case):
+        """values changed after the InputFile was built (set_data_value, or the data dictionary
+        assigned back), then written and read: what is read is what the InputFile held"""
+        from geoh5py.objects import Points
+        from geoh5py.ui_json import InputFile, templates
+        from geoh5py.ui_json.constants import default_ui_json
+        from geoh5py.workspace import Workspace
+
+        def comparable(v):
+            return getattr(v, "uid", v)
+
+        d = tempfile.mkdtemp()
+        try:
+            with Workspace.create(os.path.join(d, "e.geoh5")) as ws:
+                pts = Points.create(ws, vertices=np.zeros((4, 3)), name="pts")
+                ca = pts.add_data({"chan_a": {"values": np.arange(4.0)}})
+                cb = pts.add_data({"chan_b": {"values": np.arange(4.0) * 2}})
+                ui = deepcopy(default_ui_json)
+                ui["geoh5"] = ws
+                ui["object"] = templates.object_parameter(value=pts.uid)
+                ui["count"] = templates.integer_parameter(value=1)
+                ui["damping"] = templates.float_parameter(value=0.5, optional="enabled")
+                ui["label"] = templates.string_parameter(value="abc", optional="disabled")
+                ui["starting"] = templates.data_value_parameter(parent="object", value=1.0)
+                ui["reference"] = templates.data_value_parameter(parent="object", value=0.0, is_value=False, prop=cb.uid)
+                ui["bound"] = templates.data_value_parameter(parent="object", value=-np.inf, optional="disabled")
+                ifile = InputFile(ui_json=ui, validate=case["validate"])
+                if case["how"] == "set_data_value":
+                    _ = ifile.data
+                    edits = (("count", 7), ("label", "xyz")) if case["validate"] else (("count", 7), ("damping", None), ("label", "xyz"))
+                    for k, v in edits:
+                        ifile.set_data_value(k, v)
+                else:
+                    data = dict(ifile.data)
+                    data.update({"count": 7, "starting": ca, "reference": 2.5, "bound": cb})
+                    ifile.data = data
+                expected = {k: comparable(v) for k, v in ifile.data.items() if k != "geoh5"}
+                # what was assigned is what the InputFile must hold (and then write)
+                assigned = dict(edits) if case["how"] == "set_data_value" else {"count": 7, "starting": ca.uid, "reference": 2.5, "bound": cb.uid}
+                for k, v in assigned.items():
+                    if expected.get(k, "missing") != v:
+                        return f"'{k}' was given the value {v!r} but the InputFile holds {expected.get(k, 'missing')!r} ({case})"
+                out = ifile.write_ui_json(name=case["name"], path=d)
+            try:
+                back = InputFile.read_ui_json(out, validate=case["validate"])
+            except Exception as exc:
+                return f"reading back the file that was just written fails: {type(exc).__name__}: {exc} ({case})"
+            try:
+                got = {k: comparable(v) for k, v in back.data.items() if k != "geoh5"}
+                for k, v in expected.items():
+                    if got.get(k, "missing") != v:
+                        return f"'{k}': the InputFile held {v!r} when it was written, read back {got.get(k, 'missing')!r} ({case})"
+            finally:
+                if back.geoh5 is not None:
+                    try:
+                        back.geoh5.close()
+                    except Exception:
+                        pass
+        finally:
+            shutil.rmtree(d, ignore_errors=True)
+        return None
 
     def _groups(self, case):
         from geoh5py.objects import Points
@@ -204,6 +269,8 @@ class InputFileRoundTrip(Contract):
     def native_check(self, case):
         if case.get("kind") == "groups":
             return self._groups(case)
+        if case.get("kind") == "edits":
+            return self._edits(case)
         from geoh5py.objects import Points
         from geoh5py.ui_json import InputFile, templates
         from geoh5py.ui_json.constants import default_ui_json
